@@ -37,6 +37,10 @@ CONSTANTS Scenario,   \* "stream" | "mio6" | "mio8" | "awrite" | "await"
           N,          \* samples to inject / writes beyond the queue capacity
           Cap,        \* capacity of the command queue (16 in the code)
           Kinds,      \* "nkstream"/"nkbare": kind of the i-th item, "V" value | "D" dispose (Len >= N)
+          Script,     \* reader scenarios: what the receive thread gets, one entry per datagram (<<>> = N samples in order):
+                      \*   "D" DATA in order (one more sample available), "O" DATA out of order (cached, held back: the
+                      \*   consumer is notified and finds nothing), "H" a HEARTBEAT / GAP that declares the missing
+                      \*   number unavailable and thereby releases everything held back (notifies only if it did)
           GenK
 
 VARIABLES
@@ -50,9 +54,10 @@ VARIABLES
   cmdSent, signal,\* "await": command is in the queue / completion signal in the channel
   finished,       \* "await": the future returned Ready
   lk,             \* "await": the mutex of the completion channel's waker slot is held by the application
+  held, idx,      \* reader scenarios: samples cached but held back; position in Script
   trail
 
-vars == <<pc0, pc1, ins, del, waker, waker2, wakeFlag, r8, n6, q, sent, cmdSent, signal, finished, lk, trail>>
+vars == <<pc0, pc1, ins, del, waker, waker2, wakeFlag, r8, n6, q, sent, cmdSent, signal, finished, lk, held, idx, trail>>
 
 \* item kinds for the configurations (a cfg file cannot write a tuple)
 KindsNone == <<>>
@@ -69,23 +74,34 @@ Init ==
   /\ pc1 = CASE Scenario \in {"stream", "nkstream", "nkbare"} -> "a_poll" [] Scenario \in {"mio6", "mio8"} -> "c_wait"
              [] Scenario = "awrite" -> "aw_poll" [] Scenario = "await" -> "e_poll"
   /\ ins = 0 /\ del = 0 /\ waker = FALSE /\ waker2 = FALSE /\ wakeFlag = FALSE /\ r8 = FALSE /\ n6 = 0
-  /\ q = 0 /\ sent = 0 /\ cmdSent = FALSE /\ signal = FALSE /\ finished = FALSE /\ lk = FALSE
+  /\ q = 0 /\ sent = 0 /\ cmdSent = FALSE /\ signal = FALSE /\ finished = FALSE /\ lk = FALSE /\ held = 0 /\ idx = 0
   /\ trail = <<>>
 
 T(i) == trail' = Append(trail, i)
 
 (* ------------------------------------------------ thread 0: receive thread *)
-R0 == /\ Reader /\ pc0 = "r_inject" /\ ins < N
-      /\ ins' = ins + 1 /\ pc0' = "n0"                       \* cache insert + reliable marker, one lock
-      /\ UNCHANGED <<pc1, del, waker, wakeFlag, r8, n6, q, sent, cmdSent, signal, finished, lk, waker2>> /\ T(0)
+ScriptNone == <<>>
+ScriptOHD == <<"O", "H", "D">>
+ScriptDOH == <<"D", "O", "H">>
+ScriptOOHD == <<"O", "O", "H", "D">>
+ScriptHOH == <<"H", "O", "H">>
+NEvents == IF Script = <<>> THEN N ELSE Len(Script)
+R0 == /\ Reader /\ pc0 = "r_inject" /\ idx < NEvents
+      /\ LET kind == IF Script = <<>> THEN "D" ELSE Script[idx + 1] IN
+           /\ idx' = idx + 1
+           /\ CASE kind = "D" -> ins' = ins + 1 /\ held' = held /\ pc0' = "n0"           \* cache insert + marker, notify
+                [] kind = "O" -> ins' = ins /\ held' = held + 1 /\ pc0' = "n0"           \* cache insert, notify (nothing to take yet)
+                [] kind = "H" -> ins' = ins + held /\ held' = 0                          \* the marker moves iff something was held
+                                 /\ pc0' = IF held > 0 THEN "n0" ELSE "r_inject"
+      /\ UNCHANGED <<pc1, del, waker, wakeFlag, r8, n6, q, sent, cmdSent, signal, finished, waker2, lk>> /\ T(0)
 R1 == /\ pc0 = "n0" /\ pc0' = "n1"                           \* waker.take().map(wake)
       /\ waker' = FALSE /\ wakeFlag' = (wakeFlag \/ waker)
-      /\ UNCHANGED <<pc1, ins, del, r8, n6, q, sent, cmdSent, signal, finished, lk, waker2>> /\ T(0)
+      /\ UNCHANGED <<pc1, ins, del, r8, n6, q, sent, cmdSent, signal, finished, lk, held, idx, waker2>> /\ T(0)
 R2 == /\ pc0 = "n1" /\ pc0' = "n2" /\ r8' = TRUE             \* poll_event_sender.send()
-      /\ UNCHANGED <<pc1, ins, del, waker, wakeFlag, n6, q, sent, cmdSent, signal, finished, lk, waker2>> /\ T(0)
+      /\ UNCHANGED <<pc1, ins, del, waker, wakeFlag, n6, q, sent, cmdSent, signal, finished, lk, held, idx, waker2>> /\ T(0)
 R3 == /\ pc0 = "n2" /\ pc0' = "r_inject"                     \* notification_sender.try_send(())
       /\ n6' = IF n6 < 4 THEN n6 + 1 ELSE n6
-      /\ UNCHANGED <<pc1, ins, del, waker, wakeFlag, r8, q, sent, cmdSent, signal, finished, lk, waker2>> /\ T(0)
+      /\ UNCHANGED <<pc1, ins, del, waker, wakeFlag, r8, q, sent, cmdSent, signal, finished, lk, held, idx, waker2>> /\ T(0)
 
 (* ------------------------------------------------- thread 0: writer thread *)
 \* process_writer_command pops every queued command; after each pop it wakes the stored waker
@@ -94,31 +110,31 @@ W0 == /\ Scenario = "awrite" /\ pc0 \in {"w_pop", "k1"}
            THEN /\ q' = q - 1 /\ pc0' = "k1"
                 /\ wakeFlag' = (wakeFlag \/ waker)             \* cc_upload_waker is woken by reference (it stays stored)
            ELSE /\ pc0' = "w_pop" /\ UNCHANGED <<q, wakeFlag>>
-      /\ UNCHANGED <<pc1, ins, del, r8, n6, sent, cmdSent, finished, lk, waker2, signal, waker>> /\ T(0)
+      /\ UNCHANGED <<pc1, ins, del, r8, n6, sent, cmdSent, finished, lk, held, idx, waker2, signal, waker>> /\ T(0)
 \* "await": the only command is the wait itself; no reader is matched, so it completes at once: the Writer goes
 \* straight to StatusChannelSender::try_send and stops in front of the channel's mutex
 W1 == /\ Scenario = "await" /\ pc0 = "w_pop"
       /\ IF q > 0 THEN q' = q - 1 /\ pc0' = "sl0" ELSE UNCHANGED <<q, pc0>>
-      /\ UNCHANGED <<pc1, ins, del, r8, n6, sent, cmdSent, finished, lk, waker2, signal, waker, wakeFlag>> /\ T(0)
+      /\ UNCHANGED <<pc1, ins, del, r8, n6, sent, cmdSent, finished, lk, held, idx, waker2, signal, waker, wakeFlag>> /\ T(0)
 \* lock | send | wake and take the stored waker | unlock
 W2 == /\ pc0 = "sl0" /\ ~lk
       /\ signal' = TRUE /\ wakeFlag' = (wakeFlag \/ waker) /\ waker' = FALSE /\ pc0' = "w_pop"
-      /\ UNCHANGED <<pc1, ins, del, r8, n6, q, sent, cmdSent, finished, lk, waker2>> /\ T(0)
+      /\ UNCHANGED <<pc1, ins, del, r8, n6, q, sent, cmdSent, finished, lk, held, idx, waker2>> /\ T(0)
 \* scheduled while the application is inside its critical section: blocked on the mutex, no progress
 W2b == /\ pc0 = "sl0" /\ lk
-       /\ UNCHANGED <<pc0, pc1, ins, del, r8, n6, q, sent, cmdSent, finished, lk, waker2, signal, waker, wakeFlag>> /\ T(0)
+       /\ UNCHANGED <<pc0, pc1, ins, del, r8, n6, q, sent, cmdSent, finished, lk, held, idx, waker2, signal, waker, wakeFlag>> /\ T(0)
 
 (* ------------------------------------------ thread 1: async stream consumer *)
 S0 == /\ Scenario = "stream" /\ pc1 = "a_poll"              \* first try_take_one
       /\ IF ins > del THEN del' = del + 1 /\ pc1' = "a_poll" ELSE pc1' = "p1" /\ UNCHANGED del
-      /\ UNCHANGED <<pc0, ins, waker, wakeFlag, r8, n6, q, sent, cmdSent, signal, finished, lk, waker2>> /\ T(1)
+      /\ UNCHANGED <<pc0, ins, waker, wakeFlag, r8, n6, q, sent, cmdSent, signal, finished, lk, held, idx, waker2>> /\ T(1)
 S1 == /\ pc1 = "p1" /\ pc1' = "p2" /\ waker' = TRUE         \* set_waker
-      /\ UNCHANGED <<pc0, ins, del, wakeFlag, r8, n6, q, sent, cmdSent, signal, finished, lk, waker2>> /\ T(1)
+      /\ UNCHANGED <<pc0, ins, del, wakeFlag, r8, n6, q, sent, cmdSent, signal, finished, lk, held, idx, waker2>> /\ T(1)
 S2 == /\ ~NoKey /\ pc1 = "p2"                               \* second try_take_one
       /\ IF ins > del THEN del' = del + 1 /\ pc1' = "a_poll" ELSE pc1' = "a_parked" /\ UNCHANGED del
-      /\ UNCHANGED <<pc0, ins, waker, wakeFlag, r8, n6, q, sent, cmdSent, signal, finished, lk, waker2>> /\ T(1)
+      /\ UNCHANGED <<pc0, ins, waker, wakeFlag, r8, n6, q, sent, cmdSent, signal, finished, lk, held, idx, waker2>> /\ T(1)
 S3 == /\ pc1 = "a_parked" /\ wakeFlag /\ wakeFlag' = FALSE /\ pc1' = "a_poll"    \* the executor re-polls a woken task
-      /\ UNCHANGED <<pc0, ins, del, waker, r8, n6, q, sent, cmdSent, signal, finished, lk, waker2>> /\ T(1)
+      /\ UNCHANGED <<pc0, ins, del, waker, r8, n6, q, sent, cmdSent, signal, finished, lk, held, idx, waker2>> /\ T(1)
 
 (* --------------------------- thread 1: async stream of a no_key DataReader *)
 \* del counts the items taken out of the cache (values handed over and disposes skipped).
@@ -129,53 +145,53 @@ Skip(d) == IF d < ins /\ Kinds[d + 1] = "D" THEN Skip(d + 1) ELSE d
 NK0 == /\ NoKey /\ pc1 = "a_poll"                             \* first try_take_one (after any skipped disposes)
        /\ LET d2 == Skip(del) IN
             IF ins > d2 THEN del' = d2 + 1 /\ pc1' = "a_poll" ELSE del' = d2 /\ pc1' = "p1"
-       /\ UNCHANGED <<pc0, ins, waker, wakeFlag, r8, n6, q, sent, cmdSent, signal, finished, lk, waker2>> /\ T(1)
+       /\ UNCHANGED <<pc0, ins, waker, wakeFlag, r8, n6, q, sent, cmdSent, signal, finished, lk, held, idx, waker2>> /\ T(1)
 NK2 == /\ NoKey /\ pc1 = "p2"                                 \* second try_take_one
        /\ IF ins > del
             THEN IF Kinds[del + 1] = "V" THEN del' = del + 1 /\ pc1' = "a_poll"
                  ELSE LET d2 == Skip(del) IN                  \* a dispose: the wrapper polls the keyed stream again
                       IF ins > d2 THEN del' = d2 + 1 /\ pc1' = "a_poll" ELSE del' = d2 /\ pc1' = "p1"
             ELSE pc1' = "a_parked" /\ UNCHANGED del
-       /\ UNCHANGED <<pc0, ins, waker, wakeFlag, r8, n6, q, sent, cmdSent, signal, finished, lk, waker2>> /\ T(1)
+       /\ UNCHANGED <<pc0, ins, waker, wakeFlag, r8, n6, q, sent, cmdSent, signal, finished, lk, held, idx, waker2>> /\ T(1)
 
 (* -------------------------------------------------- thread 1: mio consumers *)
 Readable == IF Scenario = "mio6" THEN n6 > 0 ELSE r8
 C0 == /\ Scenario \in {"mio6", "mio8"} /\ pc1 = "c_wait" /\ Readable    \* poll returned an event
       /\ pc1' = "c_take"
-      /\ UNCHANGED <<pc0, ins, del, waker, wakeFlag, r8, n6, q, sent, cmdSent, signal, finished, lk, waker2>> /\ T(1)
+      /\ UNCHANGED <<pc0, ins, del, waker, wakeFlag, r8, n6, q, sent, cmdSent, signal, finished, lk, held, idx, waker2>> /\ T(1)
 C1 == /\ pc1 = "c_take" /\ pc1' = "t1" /\ n6' = 0 /\ r8' = FALSE        \* take(): drain_read_notifications
-      /\ UNCHANGED <<pc0, ins, del, waker, wakeFlag, q, sent, cmdSent, signal, finished, lk, waker2>> /\ T(1)
+      /\ UNCHANGED <<pc0, ins, del, waker, wakeFlag, q, sent, cmdSent, signal, finished, lk, held, idx, waker2>> /\ T(1)
 C2 == /\ pc1 = "t1"                                                      \* take(): fill + take everything
       /\ del' = ins /\ pc1' = IF ins > del THEN "c_take" ELSE "c_wait"    \* take until empty
-      /\ UNCHANGED <<pc0, ins, waker, wakeFlag, r8, n6, q, sent, cmdSent, signal, finished, lk, waker2>> /\ T(1)
+      /\ UNCHANGED <<pc0, ins, waker, wakeFlag, r8, n6, q, sent, cmdSent, signal, finished, lk, held, idx, waker2>> /\ T(1)
 
 (* ------------------------------------------------------ thread 1: AsyncWrite *)
 A0 == /\ Scenario = "awrite" /\ pc1 = "aw_poll" /\ sent < Cap + N       \* try_send
       /\ IF q < Cap THEN q' = q + 1 /\ sent' = sent + 1 /\ pc1' = "aw_poll"
          ELSE pc1' = "w1" /\ UNCHANGED <<q, sent>>
-      /\ UNCHANGED <<pc0, ins, del, waker, wakeFlag, r8, n6, cmdSent, signal, finished, lk, waker2>> /\ T(1)
+      /\ UNCHANGED <<pc0, ins, del, waker, wakeFlag, r8, n6, cmdSent, signal, finished, lk, held, idx, waker2>> /\ T(1)
 A1 == /\ pc1 = "w1" /\ pc1' = "w2" /\ waker' = TRUE                      \* store waker
-      /\ UNCHANGED <<pc0, ins, del, wakeFlag, r8, n6, q, sent, cmdSent, signal, finished, lk, waker2>> /\ T(1)
+      /\ UNCHANGED <<pc0, ins, del, wakeFlag, r8, n6, q, sent, cmdSent, signal, finished, lk, held, idx, waker2>> /\ T(1)
 A2 == /\ pc1 = "w2"                                                      \* retry with the waker in place
       /\ IF q < Cap THEN q' = q + 1 /\ sent' = sent + 1 /\ pc1' = "aw_poll"
          ELSE pc1' = "aw_parked" /\ UNCHANGED <<q, sent>>
-      /\ UNCHANGED <<pc0, ins, del, waker, wakeFlag, r8, n6, cmdSent, signal, finished, lk, waker2>> /\ T(1)
+      /\ UNCHANGED <<pc0, ins, del, waker, wakeFlag, r8, n6, cmdSent, signal, finished, lk, held, idx, waker2>> /\ T(1)
 A3 == /\ pc1 = "aw_parked" /\ wakeFlag /\ wakeFlag' = FALSE /\ pc1' = "aw_poll"
-      /\ UNCHANGED <<pc0, ins, del, waker, r8, n6, q, sent, cmdSent, signal, finished, lk, waker2>> /\ T(1)
+      /\ UNCHANGED <<pc0, ins, del, waker, r8, n6, q, sent, cmdSent, signal, finished, lk, held, idx, waker2>> /\ T(1)
 
 (* ----------------------------------- thread 1: AsyncWaitForAcknowledgments *)
 E0 == /\ Scenario = "await" /\ pc1 = "e_poll" /\ ~cmdSent               \* WaitingSendCommand: try_send
       /\ q' = q + 1 /\ cmdSent' = TRUE /\ pc1' = "a1" /\ waker2' = TRUE    \* waker stored before try_send
-      /\ UNCHANGED <<pc0, ins, del, waker, wakeFlag, r8, n6, sent, signal, finished, lk>> /\ T(1)
+      /\ UNCHANGED <<pc0, ins, del, waker, wakeFlag, r8, n6, sent, signal, finished, lk, held, idx>> /\ T(1)
 E1 == /\ pc1 \in {"a1", "e_repoll"}                                     \* Waiting: lock the waker slot, try_recv
       /\ IF signal THEN finished' = TRUE /\ pc1' = "e_done" /\ UNCHANGED lk
          ELSE lk' = TRUE /\ pc1' = "sr1" /\ UNCHANGED finished          \* empty: stays inside the critical section
-      /\ UNCHANGED <<pc0, ins, del, waker, wakeFlag, r8, n6, q, sent, cmdSent, signal, waker2>> /\ T(1)
+      /\ UNCHANGED <<pc0, ins, del, waker, wakeFlag, r8, n6, q, sent, cmdSent, signal, waker2, held, idx>> /\ T(1)
 E1b == /\ pc1 = "sr1"                                                   \* store the waker, unlock, return Pending
        /\ waker' = TRUE /\ lk' = FALSE /\ pc1' = "e_parked"
-       /\ UNCHANGED <<pc0, ins, del, wakeFlag, r8, n6, q, sent, cmdSent, signal, finished, waker2>> /\ T(1)
+       /\ UNCHANGED <<pc0, ins, del, wakeFlag, r8, n6, q, sent, cmdSent, signal, finished, waker2, held, idx>> /\ T(1)
 E2 == /\ pc1 = "e_parked" /\ wakeFlag /\ wakeFlag' = FALSE /\ pc1' = "e_repoll"
-      /\ UNCHANGED <<pc0, ins, del, waker, r8, n6, q, sent, cmdSent, signal, finished, lk, waker2>> /\ T(1)
+      /\ UNCHANGED <<pc0, ins, del, waker, r8, n6, q, sent, cmdSent, signal, finished, lk, held, idx, waker2>> /\ T(1)
 
 Next == R0 \/ R1 \/ R2 \/ R3 \/ W0 \/ S0 \/ S1 \/ S2 \/ S3 \/ NK0 \/ NK2 \/ C0 \/ C1 \/ C2 \/ A0 \/ A1 \/ A2 \/ A3 \/ E0 \/ E1 \/ E1b \/ E2 \/ W1 \/ W2 \/ W2b
 Spec == Init /\ [][Next]_vars
@@ -190,8 +206,8 @@ LostWake ==
   \/ (pc1 = "e_parked" /\ signal /\ ~wakeFlag)
 Inv_NoLostWake == ~LostWake
 
-View == <<pc0, pc1, ins, del, waker, waker2, wakeFlag, r8, n6, q, sent, cmdSent, signal, finished, lk>>
+View == <<pc0, pc1, ins, del, waker, waker2, wakeFlag, r8, n6, q, sent, cmdSent, signal, finished, lk, held, idx>>
 \* dump the schedule of every behaviour prefix that ends with the producer idle (a quiescent point)
 GenEdge == (GenK > 0 /\ RandomElement(1..GenK) = 1) =>
-             PrintT("REPLAY " \o ToJson([scenario |-> Scenario, n |-> N, kinds |-> Kinds, sched |-> trail']))
+             PrintT("REPLAY " \o ToJson([scenario |-> Scenario, n |-> N, kinds |-> Kinds, script |-> Script, sched |-> trail']))
 =============================================================================
